@@ -524,15 +524,22 @@ func (ss *streams) add(s *Stream) {
 
 func (ss *streams) remove(s *Stream) {
 	delete(ss.aliases, s.alias)
-	for i, e := range ss.elems {
+	// open/4 with more than one alias/1 option adds the stream once per alias, and only the last of them is s.alias.
+	// None of the aliases, and none of the entries, must outlive the stream.
+	for a, e := range ss.aliases {
 		if e == s {
+			delete(ss.aliases, a)
+		}
+	}
+	for i := 0; i < len(ss.elems); i++ {
+		if ss.elems[i] == s {
 			// Delete the i-th element.
 			if i < len(ss.elems)-1 {
 				copy(ss.elems[i:], ss.elems[i+1:])
 			}
 			ss.elems[len(ss.elems)-1] = nil
 			ss.elems = ss.elems[:len(ss.elems)-1]
-			return
+			i--
 		}
 	}
 }
